@@ -25,7 +25,7 @@ import numpy as np
 from .. import session as S
 from ..encode import exact_int
 
-SYMS = ['BTC-USDT', 'ETH-USDT']
+SYMS = ['BTC-USDT', 'ETH-USDT', 'SOL-USDT']
 MAX_FILLS_PER_STEP = 60          # livelock guard (flip ping-pong in execute_pending_market_orders never ends)
 
 DEFAULT = dict(
@@ -205,18 +205,22 @@ class StratRec:
         self.item = item
         self.ev = []
         self.orders = {}          # ordinal -> Order
-        self.sym_idx = {s: i + 1 for i, s in enumerate(SYMS[:item['nsym']])}
+        self.nsym_all = item['nsym'] + item.get('ndata', 0)       # trading symbols + symbols that only have data routes
+        self.sym_idx = {s: i + 1 for i, s in enumerate(SYMS[:self.nsym_all])}
         self.tick = item['policy'].get('tick', DEFAULT['tick'])
+        self.punit = self.tick / item.get('pdiv', 1)        # price lattice (finer than the tick when liquidation prices occur)
+        self.qunit = 1.0 / item.get('qdiv', 1)              # quantity lattice (spot: the fee is taken from the base asset)
+        self.in_liq = 0
         self.fills_in_step = 0
         self.cm = {}              # symbol -> minute of the 1m candle being matched (from the partial candle), or absent
         self.rec = S.Recorder()
 
     # encoders
     def P(self, x):
-        return exact_int(x, self.tick, 'price')
+        return _lattice(x, self.punit, 'price')
 
     def Q(self, x):
-        return exact_int(x, 1.0, 'qty')
+        return _lattice(x, self.qunit, 'qty')
 
     def emit(self, k, **f):
         f['k'] = k
@@ -243,9 +247,12 @@ class StratRec:
         q = self.Q(strat.position.qty)
         if kind == 'step':
             self.fills_in_step = 0
-            self.emit('step', s=s, i=strat.index, q=q,
+            self.emit('step', s=s, i=strat.index, q=q, t=int((strat.time - S.T0) // S.MIN),
                       rest=[i for i in self.active(strat.symbol) if not self.orders[i].reduce_only
-                            and self.orders[i].submitted_via is None])
+                            and self.orders[i].submitted_via is None],
+                      act=[self.order_rec(i) for i in self.active(strat.symbol)],
+                      sl=self.rows(strat.stop_loss), tp=self.rows(strat.take_profit),
+                      hl=strat.stop_loss is not None, ht=strat.take_profit is not None)
         elif kind == 'decl':
             self.emit('decl', s=s, h=name, q=q, buy=self.rows(strat.buy), sell=self.rows(strat.sell),
                       sl=self.rows(strat.stop_loss), tp=self.rows(strat.take_profit),
@@ -280,7 +287,8 @@ class StratRec:
             st = strat_of(self_.symbol)
             pos = store.positions.storage['%s-%s' % (self_.exchange, self_.symbol)]
             me.emit('submit', s=me.sym_idx[self_.symbol], o=i, side=self_.side, type=self_.type, q=me.Q(abs(self_.qty)),
-                    p=me.P(self_.price), ro=bool(self_.reduce_only), cur=me.P(st.price), pq=me.Q(pos.qty), _ord=i)
+                    p=me.P(self_.price), ro=bool(self_.reduce_only), cur=me.P(st.price), pq=me.Q(pos.qty), _ord=i,
+                    liq=me.in_liq > 0)
 
         def execute(self_, *a, **k):
             if not self_.is_active:
@@ -313,7 +321,6 @@ class StratRec:
         from jesse.modes import backtest_mode as bm
         o_step, o_fast, o_part = bm._simulate_price_change_effect, bm._simulate_price_change_effect_multiple_candles, \
             bm._update_all_routes_a_partial_candle
-        self._orig_bm = (o_step, o_fast, o_part)
 
         def window(cs, symbol):
             lo, hi = [], []
@@ -344,8 +351,20 @@ class StratRec:
             me.cm[symbol] = int((int(candle[0]) - S.T0) // S.MIN)
             return o_part(exchange, symbol, candle)
 
+        o_liq = bm._check_for_liquidations
+
+        def liq(candle, exchange, symbol):      # isolated margin: the liquidation order is created and executed in here,
+            me.cm.pop(symbol, None)             # after the matching of the minute / chunk is over
+            me.in_liq += 1
+            try:
+                return o_liq(candle, exchange, symbol)
+            finally:
+                me.in_liq -= 1
+
+        self._orig_bm = (o_step, o_fast, o_part, o_liq)
         bm._simulate_price_change_effect, bm._simulate_price_change_effect_multiple_candles = step, fast
         bm._update_all_routes_a_partial_candle = part
+        bm._check_for_liquidations = liq
 
     def uninstall(self):
         from jesse.models import Order
@@ -353,7 +372,7 @@ class StratRec:
         if getattr(self, '_orig_bm', None):
             from jesse.modes import backtest_mode as bm
             (bm._simulate_price_change_effect, bm._simulate_price_change_effect_multiple_candles,
-             bm._update_all_routes_a_partial_candle) = self._orig_bm
+             bm._update_all_routes_a_partial_candle, bm._check_for_liquidations) = self._orig_bm
 
     def finish(self, out):
         # final tags: submitted_via is set after Order.__init__ returns
@@ -371,12 +390,14 @@ class StratRec:
         if out.get('exc'):
             self.emit('exc', cls=out['exc'].split(':')[0])
         fee = self.item['fee']             # [num, den]
-        u = self.tick / fee[1]             # money lattice: qty(1) * tick / fee denominator
+        u = self.punit * self.qunit / fee[1]      # money lattice: quantity unit * price unit / fee denominator
+        if self.item.get('spot'):
+            u = self.punit / 1024                 # spot: money is only logged, never compared (no wallet claim for spot)
         trades = []
         for t in fin.get('trades', []):
             den = 1000
-            trades.append({'s': self.sym_idx[t['sym']], 'type': str(t['type']), 'q8': _round_or_nan(t['qty'], 0.125),
-                           'entry': _round_or_nan(t['entry'], self.tick / den), 'exit': _round_or_nan(t['exit'], self.tick / den),
+            trades.append({'s': self.sym_idx[t['sym']], 'type': str(t['type']), 'q8': _round_or_nan(t['qty'], self.qunit / 8),
+                           'entry': _round_or_nan(t['entry'], self.punit / den), 'exit': _round_or_nan(t['exit'], self.punit / den),
                            'pnl': _round_or_nan(t['pnl'], u), 'fee': _round_or_nan(t['fee'], u),
                            'opened': int((t['opened_at'] - S.T0) // S.MIN), 'closed': int((t['closed_at'] - S.T0) // S.MIN),
                            'orders': list(t['orders'])})
@@ -387,7 +408,7 @@ class StratRec:
         res = out.get('result') or {}
         m = res.get('metrics') if isinstance(res, dict) else None
         has_m = bool(m) and 'net_profit' in (m or {})
-        self.emit('end', trades=trades, w0=exact_int(float(self.item['config']['starting_balance']), u, 'w0'),
+        self.emit('end', trades=trades, w0=_lattice(float(self.item['config']['starting_balance']), u, 'w0'),
                   w1=(_round_or_nan(w1, u) if w1 is not None else -1), has_wallet=w1 is not None,
                   has_metrics=has_m, np=(_round_or_nan(m['net_profit'], u) if has_m else 0),
                   fb=(_round_or_nan(m['finishing_balance'], u) if has_m else 0), total=(int(m['total']) if has_m else 0),
@@ -413,6 +434,16 @@ class S_Overflow(Exception):
     pass
 
 
+def _lattice(x, unit, what):
+    """x as an integer count of `unit`; tolerates float noise (0.95 * 101), refuses anything off the lattice"""
+    q = float(x) / unit
+    r = int(round(q))
+    if abs(q - r) > 1e-6 * max(1.0, abs(q)) or abs(r) >= 2 ** 31 - 1:
+        from ..encode import EncodeError
+        raise EncodeError('%s=%r is not a multiple of %r' % (what, x, unit))
+    return r
+
+
 # ------------------------------------------------------------------------------------------------ one run
 def build_candles(item):
     pol = item['policy']
@@ -420,7 +451,7 @@ def build_candles(item):
     base = pol.get('base', DEFAULT['base'])
     w = item.get('walk', {})
     out = {}
-    for si in range(item['nsym']):
+    for si in range(item['nsym'] + item.get('ndata', 0)):
         a = S.lattice_walk(item['n'], item['cseed'] * 131 + si, start=base + 3 * si, step=w.get('step', 2), wick=w.get('wick', 2),
                            floor=max(5, base - w.get('room', 60)), flat_p=w.get('flat_p', 0.15), gap_p=w.get('gap_p', 0.1),
                            scale=tick)
@@ -444,12 +475,14 @@ def run_item(item):
     cls = make_strategy(item['policy'], rec.log)
     rec.install()
     try:
-        routes = [{'symbol': SYMS[si], 'timeframe': item.get('tf', '1m')} for si in range(item['nsym'])]
-        out = S.run_backtest(None, item['config'], build_candles(item), strategy_cls=cls, fast=item.get('fast', False), routes=routes)
+        routes = [{'symbol': SYMS[si], 'timeframe': (item['tfs'][si] if item.get('tfs') else item.get('tf', '1m'))} for si in range(item['nsym'])]
+        data_routes = [{'symbol': SYMS[si], 'timeframe': tf} for si, tf in item.get('data', [])]
+        out = S.run_backtest(None, item['config'], build_candles(item), strategy_cls=cls, fast=item.get('fast', False), routes=routes,
+                             data_routes=data_routes)
     finally:
         rec.uninstall()
     ev = rec.finish(out)
-    hdr = {'nsym': item['nsym'], 'fee_n': item['fee'][0], 'fee_d': item['fee'][1], 'n': item['n'],
+    hdr = {'nsym': item['nsym'] + item.get('ndata', 0), 'spot': bool(item.get('spot')), 'fee_n': item['fee'][0], 'fee_d': item['fee'][1], 'n': item['n'],
            'pseed': item['policy'].get('seed', 0), 'cseed': item['cseed'], 'pden': 1000,
            'exc': (out.get('exc') or 'none')[:120]}
     return {'id': item['id'], 'hdr': hdr, 'ev': ev}
@@ -512,8 +545,25 @@ def gen_items(seed, count, kinds, n_minutes=240):
             it.update(tf='5m', n=(n_minutes // 5) * 5 * 2)
         elif kind == 'spot':       # spot account: exits may only be declared once the position is open; no shorts, no fee
             pol.update(base=100, tick=1.0, qtys=(1, 2), max_entry_rows=2, max_exit_rows=2, exits_in='on_open', allow_short=False,
-                       p_edit=0.25, p_edit_reduced=0.5, p_edit_increased=0.5, p_edit_entry=0.0)
+                       p_edit=0.25, resize_always=True, p_edit_entry=0.0, p_liq=0.0)
             it.update(spot=True, fee=[0, 1])
+        elif kind == 'iso':        # isolated margin, leverage 20: positions without a stop run into the liquidation order
+            pol.update(base=100, tick=1.0, qtys=(1, 2), max_entry_rows=1, entry_offsets=(0, 0, -1, 1), max_exit_rows=2,
+                       exits_in='on_open', sl_dist=(8, 12), tp_dist=(3, 9), p_edit=0.1, p_liq=0.0, p_edit_reduced=0.3, resize_always=False,
+                       entry_every=rng.choice([5, 7]), p_cancel=0.8)
+            it.update(lev=20, mode='isolated', pdiv=20, walk=dict(step=3, wick=2, room=70, flat_p=0.05), balance=20000, fee=rng.choice([[0, 1], [1, 1024]]))
+        elif kind in ('tf15', 'tf60'):   # 15m / 1h trading routes plus data routes (another timeframe, another symbol)
+            tf = '15m' if kind == 'tf15' else '1h'
+            m = 15 if kind == 'tf15' else 60
+            pol.update(base=100, tick=1.0, qtys=(1, 2), max_entry_rows=3, max_exit_rows=3, exits_in=rng.choice(['go', 'on_open', 'mixed']),
+                       p_edit=0.3, entry_every=rng.choice([2, 3]), long_phase=0, short_phase=1, sl_dist=(4, 12), tp_dist=(3, 10),
+                       entry_offsets=(0, -1, -2, -3, 1, 2, 3), resize_always=rng.choice([True, False]))
+            it.update(tf=tf, n=m * rng.choice([40, 60]), ndata=1, data=[[0, '1h' if kind == 'tf15' else '4h'], [1, '5m']],
+                      fast=rng.choice([False, True]))
+        elif kind == 'spotfee':    # spot account with a fee: the fee of a buy is taken from the base asset (position = qty * (1 - fee))
+            pol.update(base=100, tick=1.0, qtys=(1, 2), max_entry_rows=2, max_exit_rows=2, exits_in='on_open', allow_short=False,
+                       p_edit=0.25, resize_always=True, p_edit_entry=0.0, p_liq=0.0)    # (a market exit next to resting limit sells is rejected in spot)
+            it.update(spot=True, fee=[1, 1024], qdiv=1024)
         elif kind == 'fast2':      # fast simulator, two symbols, all timeframes > 1m: resting orders fill mid-chunk
             tf = rng.choice(['5m', '15m'])
             pol.update(base=100, tick=1.0, qtys=(1, 2), max_entry_rows=2, max_exit_rows=2, exits_in=rng.choice(['go', 'on_open']),
